@@ -17,6 +17,7 @@ ASSUMPTIONS = [
     "trees: within 1-2 (thorough: up to 3 on tiny bases) mutations of DFA-generated valid trees and of tests/data/eml.xml, "
     "mutation menu as in C04 (several independently invalid nodes arise from pairs/triples of mutations)",
     "single-node validation itself is judged by C01-C03; here it is only the reference for the whole-tree result",
+    "beyond the neighbourhoods: hand-made keywordSet / dataset trees with repeated leaves and 103 / 132 / 1 102 errors",
 ]
 
 META_MENU = [
